@@ -670,6 +670,27 @@ class Slice:
 
     def __init__(self, f):
         self.f = f
+        self._mutdefs = None
+
+    def mutdefs(self):
+        """local -> calls that receive a mutable reference to it (they may write it)."""
+        if self._mutdefs is None:
+            from . import flow
+            m = defaultdict(list)
+            for b, t in self.f.calls():
+                if self.f.blocks[b]["cleanup"]:
+                    continue
+                for a in t["args"]:
+                    if a["k"] not in ("copy", "move"):
+                        continue
+                    ty = a["place"]["ty"]
+                    if not ty.startswith("&mut "):
+                        continue
+                    o = flow.resolve_owner(self.f, a, want_mut=True)
+                    if o is not None:
+                        m[o].append((b, t))
+            self._mutdefs = m
+        return self._mutdefs
 
     def deps(self, start_locals, max_steps=10000):
         """Returns dict with: locals, consts (values), calls (terms), fields (set of (adt,name)),
@@ -687,6 +708,10 @@ class Slice:
             seen.add(l)
             if 1 <= l <= f.arg_count:
                 res["args"].add(l)
+            for b, t in self.mutdefs().get(l, []):
+                res["calls"].append((b, t))
+                for a in t["args"]:
+                    self._op(a, work, res)
             for b, i, d in f.defs_of(l):
                 if i == "term":
                     res["calls"].append((b, d))
